@@ -172,7 +172,12 @@ static void vf_puthex(struct vf_ctx *c, const void *p, size_t n)
 static void vf_finish(struct vf_ctx *c, int code) __attribute__((noreturn));
 static void vf_finish(struct vf_ctx *c, int code)
 {
-	(void) c;
+	if (c && c->ledger_on == 0 && c->alloc_count) {
+		char b[64];
+		int n = snprintf(b, sizeof b, "# alloc_requests_at_exit %ld\n", c->alloc_count);
+		if (c->loglen + (size_t) n < c->logcap)
+			memcpy(c->log + c->loglen, b, (size_t) n), c->loglen += (size_t) n;
+	}
 	vf_flush_all();
 	_exit(code);
 }
@@ -679,6 +684,9 @@ static VF_UNUSED void vf_free(struct vf_ctx *c, void *p)
 /* report: A live <blocks> <allocs> <reallocs> <frees> */
 static VF_UNUSED void vf_ledger_report(struct vf_ctx *c)
 {
+	vf_puts(c, "# alloc_requests ");
+	vf_putl(c, c->alloc_count);
+	vf_put(c, "\n", 1);
 	vf_puts(c, "A live ");
 	vf_putl(c, c->nblk);
 	vf_puts(c, " ");
